@@ -693,6 +693,10 @@ class HermesServer:
                         (event, obj) = Event.fromDiffItem(
                             diffitem, eventCategory, changeType
                         )
+                        if eventCategory == "initsync":
+                            # Secrets must never be sent in initsync sequences
+                            for attr in secretAttrs:
+                                event.objattrs.pop(attr, None)
 
                         if sendEvents:
                             # Send event
